@@ -41,18 +41,32 @@ def run_wrapper(rng, obs):
     from .. import solverkit as K
     which = rng.choice(['fmin', 'fmin_powell', 'diffev', 'diffev2'])
     dim = rng.randint(1, 4)
+    use_defaults = which.startswith('diffev') and rng.random() < 0.3
+    if use_defaults: dim = rng.randint(1, 2)
     cost_spec = K.gen_cost(rng, dim, ['sphere', 'illquad', 'rosen', 'abs'])
     probe = K.CostProbe(K.make_cost(cost_spec))
     x0 = [round(rng.uniform(-3, 3), 2) for _ in range(dim)]
     maxiter = rng.choice([None, 0, 1, 2, 5, 30, 400]); maxfun = rng.choice([None, 1, 5, 40, 2000])
+    if use_defaults: maxiter = None; maxfun = rng.choice([None, None, 2000])
     kw = {'disp': 0, 'full_output': 1, 'maxiter': maxiter, 'maxfun': maxfun}
+    eff_maxiter, eff_maxfun = maxiter, maxfun
     if which.startswith('diffev'):
         kw['npop'] = rng.choice([4, 6]);
-        if maxiter is None: kw['maxiter'] = maxiter = 60
+        if maxiter is None:
+            if dim * kw['npop'] * 10 <= 120 and (use_defaults or rng.random() < 0.7):
+                # limits left to their documented defaults (nDim*nPop*10 generations, nDim*nPop*1000 evaluations): the flag must name the one reached;
+                # an offset keeps the default VTR termination from firing first
+                off = K.make_cost(cost_spec); probe.f = (lambda x, off=off: off(x) + 7.0)
+                eff_maxiter = dim * kw['npop'] * 10
+                if maxfun is None: eff_maxfun = dim * kw['npop'] * 1000
+                obs.event('wrapper_default_limits')
+            else: kw['maxiter'] = maxiter = eff_maxiter = 60
     out = {'fmin': fmin, 'fmin_powell': fmin_powell, 'diffev': diffev, 'diffev2': diffev2}[which](probe, x0, **kw)
     it, fc, wf = int(out[2]), int(out[3]), int(out[4])
     obs.desc = {'wrapper': which, 'dim': dim, 'cost': cost_spec, 'x0': x0, 'maxiter': maxiter, 'maxfun': maxfun}
     obs.check(fc == probe.n, 'c05:wrapper funcalls equals the real number of cost calls', wrapper=which, observed=fc, expected=probe.n)
+    maxiter_given, maxfun_given = maxiter, maxfun
+    maxiter, maxfun = eff_maxiter, eff_maxfun
     if wf == 1:
         obs.check(maxfun is not None and fc >= maxfun, 'c05:warnflag 1 means the evaluation limit was reached', wrapper=which, funcalls=fc, maxfun=maxfun, iter=it, maxiter=maxiter)
     elif wf == 2:
